@@ -598,6 +598,14 @@ func (w *world) runOp(op opSpec) (so stepOut) {
 		time.Sleep(time.Duration(op.Seconds) * time.Second)
 	case "restart":
 		w.freshControllers()
+	case "kubelet":
+		if err := w.kubelet(op); err != nil {
+			so.Err = "kubelet: " + err.Error()
+		}
+	case "edit":
+		if err := w.edit(op); err != nil {
+			so.Err = "edit: " + err.Error()
+		}
 	case "apply":
 		if err := w.apply(op.Object); err != nil {
 			so.Err = "apply: " + err.Error()
@@ -728,6 +736,196 @@ func (w *world) runOp(op opSpec) (so stepOut) {
 	return so
 }
 
+// expand turns a wildcard reconcile ("name":"*" for the replica-set controller: every replica set of the
+// namespace, in name order rotated by "seconds") into one reconcile per object that exists now.
+func (w *world) expand(op opSpec) []opSpec {
+	if op.Op != "reconcile" || op.Name != "*" {
+		return []opSpec{op}
+	}
+	ctx := context.TODO()
+	var names []string
+	switch op.Ctrl {
+	case "ers":
+		var l v1alpha1.ExtendedDaemonSetReplicaSetList
+		_ = w.raw.List(ctx, &l, client.InNamespace(op.Ns))
+		for i := range l.Items {
+			names = append(names, l.Items[i].Name)
+		}
+	case "eds", "podtemplate":
+		var l v1alpha1.ExtendedDaemonSetList
+		_ = w.raw.List(ctx, &l, client.InNamespace(op.Ns))
+		for i := range l.Items {
+			names = append(names, l.Items[i].Name)
+		}
+	case "setting":
+		var l v1alpha1.ExtendedDaemonsetSettingList
+		_ = w.raw.List(ctx, &l, client.InNamespace(op.Ns))
+		for i := range l.Items {
+			names = append(names, l.Items[i].Name)
+		}
+	}
+	sort.Strings(names)
+	out := []opSpec{}
+	n := len(names)
+	for i := 0; i < n; i++ {
+		x := op
+		x.Name = names[(i+int(op.Seconds))%n]
+		x.Seconds = 0
+		out = append(out, x)
+	}
+
+	return out
+}
+
+// kubelet plays scheduler and kubelet for the pods selected by op.Cmd: "all", "finalize" (only remove
+// terminating pods), "ready" (only start pods); op.Seconds > 0 restricts to pods whose index modulo
+// op.Seconds is 0 (a partial settle).
+func (w *world) kubelet(op opSpec) error {
+	ctx := context.TODO()
+	var pods corev1.PodList
+	if err := w.raw.List(ctx, &pods); err != nil {
+		return err
+	}
+	for i := range pods.Items {
+		p := &pods.Items[i]
+		if op.Seconds > 0 && int64(i)%op.Seconds != 0 {
+			continue
+		}
+		if op.Ns != "" && p.Namespace != op.Ns {
+			continue
+		}
+		if p.DeletionTimestamp != nil {
+			if op.Cmd == "all" || op.Cmd == "finalize" {
+				p.Finalizers = nil
+				if err := w.raw.Update(ctx, p); err != nil {
+					return err
+				}
+			}
+
+			continue
+		}
+		if op.Cmd != "all" && op.Cmd != "ready" {
+			continue
+		}
+		if p.Status.Phase == corev1.PodFailed || p.Status.Phase == corev1.PodSucceeded || p.Status.Phase == corev1.PodUnknown {
+			continue
+		}
+		if p.Spec.NodeName == "" {
+			n := podTargetNode(p)
+			if n == "" {
+				continue
+			}
+			node := &corev1.Node{}
+			if err := w.raw.Get(ctx, types.NamespacedName{Name: n}, node); err != nil {
+				continue // no such node: stays pending
+			}
+			p.Spec.NodeName = n
+		}
+		now := metav1.NewTime(time.Now().Truncate(time.Second))
+		p.Status.Phase = corev1.PodRunning
+		if p.Status.StartTime == nil {
+			p.Status.StartTime = &now
+		}
+		p.Status.Conditions = []corev1.PodCondition{{Type: corev1.PodScheduled, Status: corev1.ConditionTrue}, {Type: corev1.PodReady, Status: corev1.ConditionTrue, LastTransitionTime: now}}
+		var cs []corev1.ContainerStatus
+		for _, c := range p.Spec.Containers {
+			cs = append(cs, corev1.ContainerStatus{Name: c.Name, Ready: true, State: corev1.ContainerState{Running: &corev1.ContainerStateRunning{StartedAt: now}}})
+		}
+		p.Status.ContainerStatuses = cs
+		if err := w.raw.Update(ctx, p); err != nil {
+			return err
+		}
+	}
+
+	return nil
+}
+
+// edit applies a small user/environment edit given as op.Cmd to the object op.Kind/op.Ns/op.Name:
+// "image:<img>" (ExtendedDaemonSet template), "annotate:<k>=<v>", "unannotate:<k>", "label:<k>=<v>",
+// "unlabel:<k>", "taint:<key>=<value>:<effect>", "untaint", "restart:<n>" (pod: container restart count).
+func (w *world) edit(op opSpec) error {
+	ctx := context.TODO()
+	obj, err := decodeObject(json.RawMessage(fmt.Sprintf(`{"kind":%q,"metadata":{"name":%q,"namespace":%q}}`, op.Kind, op.Name, op.Ns)))
+	if err != nil {
+		return err
+	}
+	if err = w.raw.Get(ctx, types.NamespacedName{Namespace: op.Ns, Name: op.Name}, obj); err != nil {
+		return err
+	}
+	verb, arg, _ := strings.Cut(op.Cmd, ":")
+	kv := func() (string, string) { k, v, _ := strings.Cut(arg, "="); return k, v }
+	switch verb {
+	case "image":
+		e, ok := obj.(*v1alpha1.ExtendedDaemonSet)
+		if !ok || len(e.Spec.Template.Spec.Containers) == 0 {
+			return fmt.Errorf("image edit needs an ExtendedDaemonSet with a container")
+		}
+		e.Spec.Template.Spec.Containers[0].Image = arg
+	case "annotate":
+		k, v := kv()
+		a := obj.GetAnnotations()
+		if a == nil {
+			a = map[string]string{}
+		}
+		a[k] = v
+		obj.SetAnnotations(a)
+	case "unannotate":
+		a := obj.GetAnnotations()
+		delete(a, arg)
+		obj.SetAnnotations(a)
+	case "label":
+		k, v := kv()
+		a := obj.GetLabels()
+		if a == nil {
+			a = map[string]string{}
+		}
+		a[k] = v
+		obj.SetLabels(a)
+	case "unlabel":
+		a := obj.GetLabels()
+		delete(a, arg)
+		obj.SetLabels(a)
+	case "taint":
+		n, ok := obj.(*corev1.Node)
+		if !ok {
+			return fmt.Errorf("taint needs a node")
+		}
+		k, rest := kv()
+		v, eff, _ := strings.Cut(rest, ":")
+		n.Spec.Taints = append(n.Spec.Taints, corev1.Taint{Key: k, Value: v, Effect: corev1.TaintEffect(eff)})
+	case "untaint":
+		n, ok := obj.(*corev1.Node)
+		if !ok {
+			return fmt.Errorf("untaint needs a node")
+		}
+		n.Spec.Taints = nil
+	case "restart":
+		p, ok := obj.(*corev1.Pod)
+		if !ok {
+			return fmt.Errorf("restart needs a pod")
+		}
+		var n int32
+		fmt.Sscanf(arg, "%d", &n)
+		now := metav1.NewTime(time.Now().Truncate(time.Second))
+		if len(p.Status.ContainerStatuses) == 0 {
+			for _, c := range p.Spec.Containers {
+				p.Status.ContainerStatuses = append(p.Status.ContainerStatuses, corev1.ContainerStatus{Name: c.Name})
+			}
+		}
+		for i := range p.Status.ContainerStatuses {
+			p.Status.ContainerStatuses[i].RestartCount += n
+			p.Status.ContainerStatuses[i].LastTerminationState = corev1.ContainerState{Terminated: &corev1.ContainerStateTerminated{Reason: "Error", ExitCode: 1, FinishedAt: now}}
+		}
+		if p.Status.StartTime == nil {
+			p.Status.StartTime = &now
+		}
+	default:
+		return fmt.Errorf("unknown edit %q", op.Cmd)
+	}
+
+	return w.raw.Update(ctx, obj)
+}
+
 func runWorld(t *testing.T, raw json.RawMessage) (any, error) {
 	var wc worldCase
 	if err := json.Unmarshal(raw, &wc); err != nil {
@@ -760,7 +958,9 @@ func runWorld(t *testing.T, raw json.RawMessage) (any, error) {
 			}
 		}
 		for _, op := range wc.Ops {
-			steps = append(steps, w.runOp(op))
+			for _, x := range w.expand(op) {
+				steps = append(steps, w.runOp(x))
+			}
 		}
 		final = w.dump()
 	})
